@@ -215,6 +215,8 @@ pub struct Interp {
     multi_dead: BTreeSet<u32>,
     dead_since_maintain: BTreeSet<u32>,
     any_death: bool,
+    /// events are read through channel_mut() instead of channel()
+    drain_mut: bool,
     readers: Vec<Option<ReaderId<specs::storage::ComponentEvent>>>,
     emission: Vec<bool>,
     /// serials of values the model says were destroyed by the library in the current step
@@ -304,9 +306,15 @@ fn st_join_items<C: ZooComp>(world: &World) -> Vec<(u32, u64, u32)> {
     (&ents, &st).join().map(|(e, c)| (e.id(), c.ident().0, c.ident().1)).collect()
 }
 
-fn st_events<C: crate::stoseq::Caps>(world: &World, r: &mut ReaderId<specs::storage::ComponentEvent>) -> Vec<specs::storage::ComponentEvent> {
-    let st = world.read_storage::<C>();
-    C::read_events(&st, r)
+fn st_events<C: crate::stoseq::Caps>(world: &World, r: &mut ReaderId<specs::storage::ComponentEvent>, via_mut: bool) -> Vec<specs::storage::ComponentEvent> {
+    // the shared or the exclusive way to reach the channel
+    if via_mut {
+        let mut st = world.write_storage::<C>();
+        C::read_events_mut(&mut st, r)
+    } else {
+        let st = world.read_storage::<C>();
+        C::read_events(&st, r)
+    }
 }
 
 fn st_set_emission<C: crate::stoseq::Caps>(world: &World, on: bool) -> bool {
@@ -327,6 +335,15 @@ fn st_mask<C: ZooComp>(world: &World) -> Vec<u32> {
 fn st_count<C: ZooComp>(world: &World) -> (usize, bool) {
     let st = world.read_storage::<C>();
     (st.count(), st.is_empty())
+}
+
+/// The dense array of DenseVecStorage-backed kinds (as_slice), if the kind has one.
+fn st_dense_view<C: crate::stoseq::Caps>(world: &World) -> Option<Vec<Result<Ident, String>>> {
+    let st = world.read_storage::<C>();
+    match C::slice_view(&st, &std::collections::BTreeSet::new(), &[]) {
+        Some(crate::stoseq::SliceView::Dense(v)) => Some(v),
+        _ => None,
+    }
 }
 
 /// `(get ident, contains, intact)`
@@ -512,19 +529,27 @@ fn st_restrict_other<C: ZooComp>(
     e: Entity,
     payload: u32,
 ) -> Option<(Option<Ident>, Option<Ident>, Option<Ident>)> {
+    use specs::hibitset::BitSetLike;
     let ents = world.entities();
     let mut st = world.write_storage::<C>();
+    // probe from the item that sits on the probed handle's own index when there is one (that is where a
+    // stale handle and its successor meet), otherwise from the first item
+    let target = if st.mask().contains(e.id()) { Some(e.id()) } else { st.mask().iter().next() };
+    let target = target?;
     let shared = {
         let r = st.restrict();
-        let mut j = (&r).join();
-        let x = j.next().map(|item| item.get_other(e).map(|c| c.ident()));
+        let x = (&*ents, &r).join().find(|(ent, _)| ent.id() == target).map(|(_, item)| item.get_other(e).map(|c| c.ident()));
         x
     };
     let shared = shared?;
-    let _ = &ents;
     let mut r = st.restrict_mut();
-    let mut j = (&mut r).lend_join();
-    let mut item = j.next()?;
+    let mut j = (&*ents, &mut r).lend_join();
+    let mut item = loop {
+        let (ent, item) = j.next()?;
+        if ent.id() == target {
+            break item;
+        }
+    };
     let ex = item.get_other(e).map(|c| c.ident());
     let exm = item.get_other_mut(e).map(|mut a| {
         let id = a.ident();
@@ -641,9 +666,11 @@ fn run_body(world: &mut World, kinds: &Arc<Vec<Kind>>, body: RExec, log: &Log) {
             RStep::Nested(b) => {
                 let k = kinds.clone();
                 let l = log.clone();
-                world
-                    .read_resource::<LazyUpdate>()
-                    .exec(move |w| run_body(w, &k, b, &l));
+                if b.id % 2 == 0 {
+                    world.read_resource::<LazyUpdate>().exec(move |w| run_body(w, &k, b, &l));
+                } else {
+                    world.read_resource::<LazyUpdate>().exec_mut(move |w| run_body(w, &k, b, &l));
+                }
             }
             RStep::LazyInsert(slot, h, p) => {
                 with_kind!(kinds[slot], closure_lazy_insert(world, h, p, log));
@@ -684,6 +711,7 @@ impl Interp {
             }
         }
         Interp {
+            drain_mut: false,
             readers,
             emission,
             expect_destroyed: vec![],
@@ -861,6 +889,12 @@ impl Interp {
     // -- ops ------------------------------------------------------------------
 
     pub fn step(&mut self, op: &Op) -> Verdict {
+        // events of earlier operations have been recorded (transcripts) or are nobody's business
+        if self.transcript.is_none() {
+            for slot in 0..self.kinds.len() {
+                let _ = self.drain_events(slot);
+            }
+        }
         match op {
             Op::CreateNow { comps, built } => {
                 let kinds = self.kinds.clone();
@@ -881,6 +915,14 @@ impl Interp {
                     if *built {
                         let r = b.build();
                         assert_eq!(r, e);
+                    } else if comps.len() % 2 == 1 {
+                        // the unfinished builder is dropped by a panic unwinding through the building code
+                        let r = std::panic::catch_unwind(std::panic::AssertUnwindSafe(move || {
+                            let _b = b;
+                            panic!("verif-unwind: panic while an unfinished builder is live");
+                        }));
+                        assert!(r.is_err());
+                        let _ = crate::engine::take_last_panic();
                     } else {
                         drop(b);
                     }
@@ -935,6 +977,13 @@ impl Interp {
                     }
                     if *built {
                         b.build();
+                    } else if comps.len() % 2 == 1 {
+                        let r = std::panic::catch_unwind(std::panic::AssertUnwindSafe(move || {
+                            let _b = b;
+                            panic!("verif-unwind: panic while an unfinished builder is live");
+                        }));
+                        assert!(r.is_err());
+                        let _ = crate::engine::take_last_panic();
                     } else {
                         drop(b);
                     }
@@ -1107,6 +1156,7 @@ impl Interp {
                             "the value refused by insert through the dead handle {:?} is still alive somewhere", e);
                     }
                     self.check_slot_index("C03", slot, e.id(), "insert through a dead handle")?;
+                    self.no_events_for_refused_access(slot, e, "insert")?;
                 }
                 self.note(|| format!("insert {:?} {:?} -> ok={} old={:?}", kind, e, ok, old.map(|o| o.1)));
             }
@@ -1133,6 +1183,7 @@ impl Interp {
                     ensure!("C03", "stale-remove-returned", got.is_none(),
                         "remove through the dead handle {:?} from {:?} returned {:?}", e, kind, got);
                     self.check_slot_index("C03", slot, e.id(), "remove through a dead handle")?;
+                    self.no_events_for_refused_access(slot, e, "remove")?;
                 }
                 self.note(|| format!("remove {:?} {:?} -> {:?}", kind, e, got.map(|o| o.1)));
             }
@@ -1161,6 +1212,7 @@ impl Interp {
                     ensure!("C03", "stale-get_mut", got.is_none(),
                         "get_mut through the dead handle {:?} in {:?} handed out {:?}", e, kind, got);
                     self.check_slot_index("C03", slot, e.id(), "get_mut through a dead handle")?;
+                    self.no_events_for_refused_access(slot, e, "get_mut")?;
                 }
                 self.note(|| format!("get_mut {:?} {:?} -> {:?}", kind, e, got.map(|o| o.1)));
             }
@@ -1216,6 +1268,7 @@ impl Interp {
                     ensure!("C03", "stale-entry", r.is_err(),
                         "entry through the dead handle {:?} in {:?} was granted", e, kind);
                     self.check_slot_index("C03", slot, e.id(), "entry through a dead handle")?;
+                    self.no_events_for_refused_access(slot, e, "entry")?;
                 }
                 self.note(|| format!("entry {:?} {:?} {:?} -> {:?}", kind, e, act, r.map(|(o, g, _)| (o, g.map(|g| g.1)))));
             }
@@ -1248,6 +1301,7 @@ impl Interp {
                     ensure!("C03", "stale-get_or_default", got.is_none(),
                         "get_mut_or_default through the dead handle {:?} in {:?} handed out {:?}", e, kind, got);
                     self.check_slot_index("C03", slot, e.id(), "get_mut_or_default through a dead handle")?;
+                    self.no_events_for_refused_access(slot, e, "get_mut_or_default")?;
                 }
                 self.note(|| format!("get_or_default {:?} {:?} -> {:?}", kind, e, got.map(|o| o.1)));
             }
@@ -1283,6 +1337,7 @@ impl Interp {
                     ensure!("C03", "stale-lend-get", a.is_none() && b.is_none() && c.is_none(),
                         "lending-join lookup through the dead handle {:?} in {:?} returned {:?} / {:?} / {:?}", e, kind, a, b, c);
                     self.check_slot_index("C03", slot, e.id(), "lending-join lookup through a dead handle")?;
+                    self.no_events_for_refused_access(slot, e, "lending-join lookup")?;
                 }
                 self.note(|| format!("lend_get {:?} {:?} -> {:?}", kind, e, (a.map(|x| x.1), b.map(|x| x.1), c.map(|x| x.map(|y| y.1)))));
             }
@@ -1460,9 +1515,12 @@ impl Interp {
                 let k = self.kinds.clone();
                 let l = self.log.clone();
                 let b = body.clone();
-                self.w()
-                    .read_resource::<LazyUpdate>()
-                    .exec(move |w| run_body(w, &k, b, &l));
+                // both entry points share one queue: alternate between them
+                if body.id % 2 == 0 {
+                    self.w().read_resource::<LazyUpdate>().exec(move |w| run_body(w, &k, b, &l));
+                } else {
+                    self.w().read_resource::<LazyUpdate>().exec_mut(move |w| run_body(w, &k, b, &l));
+                }
                 self.note(|| format!("lazy_exec #{}", body.id));
                 self.queue.push(QItem::Exec(body));
             }
@@ -1515,11 +1573,23 @@ impl Interp {
 
     fn drain_events(&mut self, slot: usize) -> Vec<specs::storage::ComponentEvent> {
         let kind = self.kinds[slot];
+        let via_mut = self.drain_mut;
         let world = self.world.as_ref().unwrap();
         match self.readers[slot].as_mut() {
-            Some(r) => with_kind!(kind, st_events(world, r)),
+            Some(r) => with_kind!(kind, st_events(world, r, via_mut)),
             None => vec![],
         }
+    }
+
+    /// An access through a dead handle is no access: a tracked storage must stay silent.
+    fn no_events_for_refused_access(&mut self, slot: usize, e: Entity, what: &str) -> Verdict {
+        if self.transcript.is_some() || !self.kinds[slot].tracked() {
+            return Ok(());
+        }
+        let evs = self.drain_events(slot);
+        ensure!("C12", "event-for-refused-access", evs.is_empty(),
+            "{} through the dead handle {:?} on {:?} was refused but produced events {:?}", what, e, self.kinds[slot], evs);
+        Ok(())
     }
 
     fn stale_access(&mut self, slot: usize, e: Entity) {
@@ -1594,6 +1664,7 @@ impl Interp {
         let mut queue: std::collections::VecDeque<QItem> = std::mem::take(&mut self.queue).into();
         self.facts.max_queue_in_one_maintain = self.facts.max_queue_in_one_maintain.max(queue.len() as u32);
         let mut ran = 0u32;
+        let mut dead_targets: Vec<(usize, Entity)> = vec![];
         while let Some(item) = queue.pop_front() {
             ran += 1;
             match item {
@@ -1601,12 +1672,16 @@ impl Interp {
                     self.note_lazy_target(e);
                     if self.is_alive_entity(e) {
                         self.comps[slot].insert(e.id(), ident);
+                    } else {
+                        dead_targets.push((slot, e));
                     }
                 }
                 QItem::Remove { slot, e } => {
                     self.note_lazy_target(e);
                     if self.is_alive_entity(e) {
                         self.comps[slot].remove(&e.id());
+                    } else {
+                        dead_targets.push((slot, e));
                     }
                 }
                 QItem::Exec(body) => {
@@ -1733,6 +1808,10 @@ impl Interp {
             "maintain ran more than was queued: unexpected log tail {:?}", &log[cur..]);
         self.facts.lazy_actions_run += ran;
         self.note(|| format!("maintain ran={}", ran));
+        // a lazy insert / remove whose target was dead must not have touched the index's occupant
+        for (slot, e) in dead_targets {
+            self.check_slot_index("C03", slot, e.id(), "a lazy insert / remove whose target was dead")?;
+        }
         Ok(())
     }
 
@@ -1866,6 +1945,20 @@ impl Interp {
             }
             let (count, empty) = with_kind!(*kind, st_count(world));
             ensure!("C05", "count", count == keys.len() && empty == keys.is_empty(), "storage {:?}: count {} / is_empty {} but {} members", kind, count, empty, keys.len());
+            if let Some(view) = with_kind!(*kind, st_dense_view(world)) {
+                let mut got = vec![];
+                for r in view {
+                    match r {
+                        Ok(id) => got.push(id),
+                        Err(m) => return Err(v("C08", "exposed-dead-value", format!("storage {:?}: dense slice element: {}", kind, m))),
+                    }
+                }
+                got.sort();
+                let mut want: Vec<Ident> = self.comps[slot].values().cloned().collect();
+                want.sort();
+                ensure!("C05", "dense-slice-not-purged", got == want,
+                    "storage {:?}: as_slice() holds {:?}, the components of live entities are {:?}", kind, got, want);
+            }
             for h in &self.handles {
                 let (g, c, chk) = with_kind!(*kind, st_get(world, h.e));
                 if let Err(msg) = chk {
@@ -1905,7 +1998,7 @@ impl Interp {
         }
         for (k, kind) in self.kinds.iter().enumerate() {
             if let Some(r) = self.readers[k].as_mut() {
-                let evs = with_kind!(*kind, st_events(world, r));
+                let evs = with_kind!(*kind, st_events(world, r, false));
                 line.push_str(&format!("ev{:?}={:?};", kind, evs));
             }
         }
@@ -1934,6 +2027,7 @@ impl Interp {
 /// Runs a whole history; returns the facts for the non-triviality rules.
 pub fn run_history(h: &History, transcript: bool) -> Result<(Facts, Option<Vec<String>>), Violation> {
     let mut it = Interp::new(&h.storages, transcript);
+    it.drain_mut = h.ops.len() % 2 == 1;
     it.check_state()?;
     for op in &h.ops {
         it.step(op)?;
